@@ -218,9 +218,19 @@ def check_hash_type_tokens(cx, rep, rule='SUM-INTO'):
         p0 = [p_[0] for p_ in g.params()]
         sk, tk = string_field_of(cx, g), field_of_type(cx, g, TOK)
         ctors = [ev for ev in fw.events if ev.kind == 'call' and ev.path in ('Self', 'HashType')]
+        key_e = tok_e = None
         if len(ctors) == 1 and isinstance(sk, int) and isinstance(tk, int) and len(ctors[0].args) > max(sk, tk) and p0:
-            key_t = tm.term(ctors[0].args[sk], ctors[0].scope)
-            tok_t = tm.term(ctors[0].args[tk], ctors[0].scope)
+            key_e, tok_e, csc = ctors[0].args[sk], ctors[0].args[tk], ctors[0].scope
+        else:
+            # a struct with named fields: `Self { <string field>: key, .., <tokens field>: tokens }`
+            lits = [ev for ev in fw.events if ev.kind == 'struct' and ev.node.get('path', {}).get('s') in ('Self', 'HashType') and not ev.node.get('rest')]
+            if len(lits) == 1 and isinstance(sk, str) and isinstance(tk, str) and p0:
+                fl = dict((f_['member'], f_['expr']) for f_ in lits[0].node['fields'])
+                if sk in fl and tk in fl:
+                    key_e, tok_e, csc = fl[sk], fl[tk], lits[0].scope
+        if key_e is not None:
+            key_t = tm.term(key_e, csc)
+            tok_t = tm.term(tok_e, csc)
             fills = [ev for ev in fw.events if ev.kind == 'call' and ev.path and ev.path.split('::')[-1] == 'token_string' and len(ev.args) == 2]
             if tok_t == ('param', p0[0]) and len(fills) == 1 and not fills[0].ctx:
                 a0 = tm.term(fills[0].args[0], fills[0].scope)
